@@ -2,7 +2,7 @@
 """merge /tmp/mt/results.tsv (written by seed_all_scratch.sh) into the seeds' meta.json files"""
 import json, sys, os
 MT = os.environ.get('MT', '/tmp/mt')
-rows = [l.rstrip('\n').split('\t') for l in open(MT + '/results.tsv') if '\t' in l]
+rows = [r for r in (l.rstrip('\n').split('\t') for l in open(MT + '/results.tsv', errors='replace') if '\t' in l) if len(r) == 4 and (r[2].isdigit() or r[1] == '-')]
 for seed, cid, rc, first in rows:
     if cid == '-': print('!!', seed, first); continue
     p = f'/verif/seeded/{seed}/meta.json'
